@@ -413,20 +413,8 @@ def checkC09 (req : List String) (obs : String) : Option String :=
   | _, .panic stg => some ("panic " ++ stg)
   | _, _ => none
 
-/-- Expected destination of an output action in framed mode. -/
-def targetOf (a : Action) : Option Target :=
-  match a with
-  | .print => some (.stdout (some '\n')) | .printNull => some (.stdout (some '\x00'))
-  | .printFormatted _ => some (.stdout none)
-  | .filePrint f => some (.file f (some '\n')) | .filePrintNull f => some (.file f (some '\x00'))
-  | .filePrintFormatted f _ => some (.file f none)
-  | _ => none
-
-def actionsOf : Expr → List Action
-  | .action a => [a]
-  | .prec e | .not e => actionsOf e
-  | .and a b | .or a b | .list a b => actionsOf a ++ actionsOf b
-  | _ => []
+def targetOf (a : Action) : Option Target := Spec.target a
+def actionsOf (e : Expr) : List Action := Spec.actionsOf e
 
 def dedup {α} [DecidableEq α] : List α → List α
   | [] => []
